@@ -733,6 +733,20 @@ struct Thr {
                 cell[j] = from_bits<std::decay_t<decltype(cell[0])>>(bits[j]);
         }
     }
+    // write one lattice cell of the field through a freshly built view of its storage-order
+    // layer (stacks whose own view returns values, not references: interpolators, casts)
+    static void storage_write(const void *obj, const std::size_t *c, const uint64_t *bits)
+    {
+        if constexpr (Tr::shape == sim::SHAPE_LAYOUT && !Tr::device) {
+            const F &f = *static_cast<const F *>(obj);
+            using L = typename nth_layer<B, Tr::layout_depth>::type;
+            const auto &o = descend<Tr::layout_depth>(f.backend());
+            typename L::non_owning_data_t v(o);
+            auto &cell = v.at(make_coord<typename L::contravariant_input_t::vector_t>(c));
+            for (int j = 0; j < Tr::M; ++j)
+                cell[j] = from_bits<std::decay_t<decltype(cell[0])>>(bits[j]);
+        }
+    }
     static void view_read(const void *view, const std::size_t *c, uint64_t *bits)
     {
         if constexpr (Tr::view_writable) {
@@ -756,6 +770,8 @@ struct Thr {
         o.view_read = &view_read;
         o.ref_output = ref_out;
         o.view_write_at = &view_write_at;
+        if constexpr (Tr::shape == sim::SHAPE_LAYOUT && !Tr::device)
+            o.storage_write = &storage_write;
     }
 };
 
